@@ -1,6 +1,7 @@
 """C19 - The plan is a deterministic function of the registration sequence."""
 from .. import anchors as A
 from .. import inventory as I
+from .. import positives as P
 from ..facts import Callee
 
 PROP = "C19"
@@ -84,6 +85,9 @@ def run(ctx, report):
             sk[config] = skeleton(ctx, facts)
         except Exception as e:
             report.ob("C19.CFG", "ANCHOR", False, str(e), config=config)
+    P.check(ctx, report, "C19.NOHASHITER", ["hash_iteration"])
+    P.check(ctx, report, "C19.EQONLY", ["order_on_ids", "hash_on_ids"])
+    P.check(ctx, report, "C19.NOENV", ["env_calls", "ptr_to_int"])
     if len(sk) > 1 and "default" in sk:
         ref = sk["default"]
         for config, s_ in sorted(sk.items()):
